@@ -7,6 +7,7 @@ import (
 	"fmt"
 	"github.com/mdlayher/corerad/internal/config"
 	"github.com/mdlayher/corerad/internal/plugin"
+	"github.com/mdlayher/corerad/internal/system"
 	"github.com/mdlayher/corerad/verifrt/ref"
 	"net/netip"
 	"strings"
@@ -73,6 +74,12 @@ func c03Base(dep bool, wild bool) ref.Doc {
 	return d
 }
 
+// c03WildOnly: the RDNSS stanza is the wildcard alone (the documented default).
+func c03WildOnly(d ref.Doc) ref.Doc {
+	d.Ifaces[0].RDNSS[0]["servers"] = []string{"::"}
+	return d
+}
+
 func c03Set(d *ref.Doc, k c03Key, v string) {
 	i := &d.Ifaces[0]
 	switch k.Kind {
@@ -94,7 +101,7 @@ var c03State = ref.State{
 	Addrs:      nil,
 	MAC:        "02:00:00:00:00:01",
 	Forwarding: true,
-	Routes:     []string{"2001:db8:f000::/48", "fd00::/64"},
+	Routes:     []string{"2001:db8:f000::/48@reserved", "fd00::/64@high", "2001:db8:f100::/48@low"},
 }
 
 func init() {
@@ -144,11 +151,17 @@ func c03Check(c c03Case) [][2]string {
 		if !ifi.Advertise {
 			continue
 		}
-		for _, mac := range []string{c03State.MAC, ""} {
+		for _, mac := range []string{c03State.MAC, "", "tentative"} {
 			// Bound to the system the way the daemon does it (real Prepare), on a link with
-			// and on one without a hardware address (tunnels, point-to-point links).
+			// and on one without a hardware address (tunnels, point-to-point links), and on
+			// one whose addresses are all still tentative (duplicate address detection
+			// after boot: nothing usable for a wildcard yet).
 			st := c03State
 			st.Clock, st.MAC = c.Clock, mac
+			if mac == "tentative" {
+				st.MAC = c03State.MAC
+				st.Addrs = []system.IP{ref.IP("2001:db8:1::1/64", "N"), ref.IP("fe80::1/64", "N"), ref.IP("fd00:1::1/64", "N")}
+			}
 			if err := ref.Prepare(&ifi, &st, c02Epoch); err != nil {
 				add("C03:prepare", err.Error())
 				continue
@@ -276,7 +289,7 @@ func c03Check(c c03Case) [][2]string {
 func TestVerifC03(t *testing.T) {
 	r := ev.Begin("C03", "codec")
 	defer r.End(t)
-	r.Rule = "documents = base documents {static, wildcard} x {plain, deprecated at 4 clock readings, deprecated with a clock that advances 0.3 s / 2 s per reading across each deadline} with every duration-typed key set to each of 21 boundary strings (negative, empty, sub-second, 16/32-bit limits +-1, int64 limit, infinite, auto) one at a time, alone and in each of 4 interface modes (unicast_only, managed+other_config, preference high + hop_limit 0, unicast_only with the longest intervals) (quick) and all pairs of duration keys (thorough), and the pref64 prefix set to each of 19 CIDR strings; every ACCEPTED document is built, encoded with ndp.MarshalMessage, decoded with ndp.ParseMessage and compared field by field up to truncation; non-trivial = accepted by the parser and RA generation succeeded; distinct = distinct TOML x clock"
+	r.Rule = "documents = base documents {static, wildcard} x {plain, deprecated at 4 clock readings, deprecated with a clock that advances 0.3 s / 2 s per reading across each deadline} with every duration-typed key set to each of 21 boundary strings (negative, empty, sub-second, 16/32-bit limits +-1, int64 limit, infinite, auto) one at a time, alone and in each of 4 interface modes (unicast_only, managed+other_config, preference high + hop_limit 0, unicast_only with the longest intervals) (quick) and all pairs of duration keys (thorough), and the pref64 prefix set to each of 19 CIDR strings; every ACCEPTED document is built (on a link with a MAC, without one, and with all addresses still tentative; loopback routes carrying the kernel preferences reserved/high/low; also with the RDNSS stanza reduced to the wildcard alone), encoded with ndp.MarshalMessage, decoded with ndp.ParseMessage and compared field by field up to truncation; non-trivial = accepted by the parser and RA generation succeeded; distinct = distinct TOML x clock"
 	r.Assumptions = []string{"github.com/mdlayher/ndp's codec is the wire format (trusted)", "system state fixed to one for which RA generation succeeds (quantifier)"}
 
 	if r.Replay != nil {
@@ -340,6 +353,12 @@ func TestVerifC03(t *testing.T) {
 			}
 			for _, clock := range cl {
 				one(nil, c03Base(dep, wild), clock)
+				if wild {
+					one([]string{"rdnss=wildcard-only"}, c03WildOnly(c03Base(dep, wild)), clock)
+					d := c03Base(dep, wild)
+					delete(d.Ifaces[0].RDNSS[0], "servers")
+					one([]string{"rdnss=servers-omitted"}, d, clock)
+				}
 				for _, k := range c03Keys {
 					for _, v := range c03Durations {
 						d := c03Base(dep, wild)
